@@ -188,13 +188,15 @@ class C01(Base):
                         row = frows[ri] if ri < len(frows) and O.row_pairs(frows[ri]) == rec["pairs"] else None
                         if n == "out.xmap" and ex["mode"] in ("joined", "all"):
                             kind = "joined"
-                        elif ex["mode"] == "best":
-                            kind = "best"
+                        elif ex["mode"] == "best" and not any(
+                                O.row_pairs(c["row"]) == rec["pairs"] and str(c["qry"]) == rec["QryContigID"]
+                                for t in out.get("tapped", []) for c in t["cands"]):
+                            kind = "joined"      # not any candidate's row: produced by AlignmentResultRow.resolve
                         else:
-                            kind = "second-pass" if rec.get("AlignedRest") == "True" else "first-pass"
+                            kind = "single"
                         for v in vs:
                             d = O.c01_diagnose(row, v["clause"], rec.get("Orientation")) if row is not None else "no-row"
-                            v["signature"] = f"{kind}|{d}|sj={'0' if float(case['config'].get('-sj', 1)) == 0 else 'pos'}"
+                            v["signature"] = f"{kind}|{d}"
                     rep.add(vs, k)
             for t in out.get("tapped", []):
                 for c in t["cands"]:
